@@ -1282,8 +1282,20 @@ def call_pairs(case, obs):
 def in_domain(case):
   """False for a (hand-made or old) proxy case whose interface defines one of Python's own special names: such a class
   is not an interface the property talks about (see _safe_name); the generator never produces one."""
-  return all(m['attr'] == '__init__' or _safe_name(m['attr']) == m['attr']
-             for c in case.get('classes', []) for m in c['members'])
+  if not all(m['attr'] == '__init__' or _safe_name(m['attr']) == m['attr']
+             for c in case.get('classes', []) for m in c['members']):
+    return False
+  if case.get('dispatcher') == 'real':
+    # with the real dispatcher the driver itself opens / closes the client through the proxy's own management methods;
+    # an interface that defines a member of that name (or its _async twin) takes them away from the driver, and what is
+    # then observed (calls blocked behind an Open() nobody issued) says nothing about the proxy
+    mgmt = ('DispatcherOpen', 'DispatcherClose', '_dispatcher')
+    for c in case.get('classes', []):
+      for m in c['members']:
+        a = m['attr']
+        if a in mgmt or (a.endswith('_async') and a[:-6] in mgmt):
+          return False
+  return True
 
 
 def monitor_proxy(case, obs):
